@@ -5,7 +5,7 @@
 From Coq Require Import List NArith ZArith Lia Bool.
 From Coq Require Import Strings.Byte.
 From GoBT Require Import lib.Bytes lib.Sha256 lib.Sha1 lib.Ripemd160 model.ScriptNum model.Interp
-  proofs.ScriptNumProofs proofs.ShiftProofs proofs.InterpTotal.
+  proofs.ScriptNumProofs proofs.ShiftProofs proofs.InterpTotal proofs.InterpFrame.
 Import ListNotations.
 Local Open Scope Z_scope.
 
@@ -282,3 +282,124 @@ Lemma small_op_total c (g : Z -> Z -> Z) :
 Proof. intros H x y z Hx Hy [= <-]. apply H; assumption. Qed.
 Lemma small_op_b2z c (g : Z -> Z -> bool) : small_op c (fun x y => Some (b2z (g x y))).
 Proof. apply small_op_total. intros. apply small_b2z. Qed.
+
+Lemma small_m1 c : small c (-1).
+Proof. arith_setup c. cbn [Z.abs]. nia. Qed.
+Lemma lenZ_nil {A} : lenZ (@nil A) = 0.
+Proof. reflexivity. Qed.
+Lemma lenZ_num2bin_pad b n : lenZ b < n -> lenZ (num2bin_pad b (Z.to_nat n)) = n.
+Proof.
+  intros H. unfold lenZ in *. destruct (num2bin_pad_spec_gen b (Z.to_nat n)) as [_ E]; [lia|]. rewrite E. lia.
+Qed.
+Lemma lenZ_map2' f a b : negb (Nat.eqb (length a) (length b)) = false -> lenZ (bytes_map2 f a b) = lenZ a.
+Proof. intros H. apply lenZ_map2. apply negb_false_iff, Nat.eqb_eq in H. exact H. Qed.
+Lemma lenZ_shift (b : bool) x k : lenZ ((if b then shl_bytes else shr_bytes) x k) = lenZ x.
+Proof. destruct b; [apply lenZ_shl|apply lenZ_shr]. Qed.
+
+(** the walk over all opcodes *)
+Ltac prep :=
+  repeat match goal with
+  | H : (_ =? _)%N = _ |- _ => clear H
+  | H : (_ <=? _)%N = _ |- _ => clear H
+  | H : (_ =? _)%N || _ = _ |- _ => clear H
+  end;
+  repeat match goal with
+  | E : pop_if_bool _ _ = Some _ |- _ => apply pop_if_bool_frame in E; destruct E as (? & ? & ? & ?)
+  | E : (if ?b then pick_n else roll_n) _ _ = Some _ |- _ => destruct b; cbv beta iota in E
+  end;
+  repeat match goal with
+  | E : ds ?s = _, H : all_le _ (ds ?s) |- _ => rewrite E in H
+  | E : als ?s = _, H : all_le _ (als ?s) |- _ => rewrite E in H
+  end;
+  subst;
+  repeat match goal with
+  | H : all_le _ (_ :: _) |- _ => apply all_le_cons_iff in H; let h := fresh "Hx" in destruct H as [h H]
+  end.
+
+Ltac small_side :=
+  first
+  [ apply small_m1
+  | apply small_b2z
+  | apply small_of_int31;
+    match goal with
+    | |- _ <= lenZ ?l <= _ => pose proof (lenZ_nonneg l)
+    end;
+    try match goal with
+    | H : depth ?s <= _ |- _ => unfold depth in H; pose proof (lenZ_nonneg (als s))
+    end; lia ].
+
+Ltac len_tac :=
+  rewrite ?lenZ_invert, ?lenZ_shift, ?sha256_len, ?sha256d_len, ?ripemd160_len, ?hash160_len, ?sha1_len,
+          ?lenZ_cons, ?lenZ_nil;
+  first
+  [ assumption
+  | apply small_len; small_side
+  | match goal with |- lenZ (from_bool ?b) <= _ => pose proof (lenZ_from_bool b); lia end
+  | eapply Z.le_trans; [apply lenZ_skipn_le|assumption]
+  | eapply Z.le_trans; [apply lenZ_firstn_le|assumption]
+  | rewrite lenZ_num2bin_pad by lia; lia
+  | rewrite lenZ_map2' by assumption; assumption
+  | lia ].
+
+Ltac fin :=
+  repeat first
+    [ assumption
+    | apply all_le_nil
+    | apply all_le_cons
+    | apply all_le_app
+    | apply all_le_firstn
+    | apply all_le_skipn
+    | eapply dup_n_le; [|eassumption]
+    | eapply rot_n_le; [|eassumption]
+    | eapply swap_n_le; [|eassumption]
+    | eapply over_n_le; [|eassumption]
+    | eapply pick_n_le; [|eassumption]
+    | eapply roll_n_le; [|eassumption]
+    | match goal with |- lenZ _ <= _ => len_tac end ].
+
+Ltac leaf_ok :=
+  prep; cbn [good push push_num push_bool]; unfold sized;
+  cbn [ds als set_ds set_als set_cond set_nops set_sep set_early];
+  repeat match goal with
+  | E : ds ?s = _ |- context [ds ?s] => rewrite E
+  | E : als ?s = _ |- context [als ?s] => rewrite E
+  end;
+  repeat split; fin.
+
+Ltac arith_side c :=
+  first
+  [ apply small_op_b2z
+  | intros x Hx; first [apply small_b2z | destruct (small_unary c x Hx) as (? & ? & ? & ?); assumption]
+  | apply small_op_total; intros x y Hx Hy; destruct (small_binary c x y Hx Hy) as (? & ? & ? & ? & ? & ? & ?);
+    first [assumption | match goal with |- small _ (if ?b then _ else _) => destruct b; assumption end]
+  | intros x y z Hx Hy; destruct (small_binary c x y Hx Hy) as (? & ? & ? & ? & ? & ? & ?);
+    destruct (x =? 0); [discriminate|]; intros [= <-]; assumption ].
+
+Ltac step :=
+  match goal with
+  | |- good _ _ OErr => exact I
+  | |- good _ _ OPanic => exact I
+  | |- good ?c _ (unary_num _ _ _) => apply good_unary; [split; assumption|arith_side c]
+  | |- good ?c _ (binary_num _ _ _) => apply good_binary; [split; assumption|arith_side c]
+  | |- good ?c _ (match binary_num _ _ _ with _ => _ end) => apply good_binary_verify; [split; assumption|arith_side c]
+  | |- good _ _ (nop_like _ _) => apply good_nop; split; assumption
+  | |- good _ _ (verify_top _) => apply good_verify; split; assumption
+  | |- good _ _ (if ?b then _ else _) => destruct b eqn:?
+  | |- good _ _ (match ?x with _ => _ end) => destruct x eqn:?
+  end.
+
+(** every handler keeps the invariant.  The depth hypothesis is what bounds OP_DEPTH's result;
+    the bound on the opcode's own data is the test at the head of [execute_opcode]. *)
+Lemma handler_good so c p idx s :
+  sigops_sized so -> sized c s -> depth s <= max_stack c -> lenZ (p_data p) <= max_elem c ->
+  good c s (exec_handler so c p idx s).
+Proof.
+  intros Hso Hsz Hdep Hp.
+  destruct (Hso c s idx false Hsz) as [Hs1 Hm1]. destruct (Hso c s idx true Hsz) as [Hs2 Hm2].
+  destruct Hsz as [Hd Ha].
+  destruct (limits c) as (Hk & H2k & H32 & Hme & Hms).
+  unfold exec_handler.
+  repeat step.
+  all: try assumption.
+  all: solve [leaf_ok].
+Qed.
